@@ -85,6 +85,13 @@ const apiTmplPlain = `{{- if .System }}<<SYS>>{{ .System }}<</SYS>>
 {{ end }}{{- range .Messages }}{{ .Role }}: {{ .Content }}
 {{ end }}assistant:`
 
+// Completion template with fill-in-the-middle support (insert capability).
+const apiTmplInsert = `{{- if .Suffix }}<PRE> {{ .Prompt }} <SUF>{{ .Suffix }} <MID>
+{{- else }}{{ if .System }}{{ .System }}
+
+{{ end }}{{ .Prompt }}
+{{- end }}`
+
 // ---- in-memory HTTP ------------------------------------------------------------------------
 
 // memWriter is the in-memory http.ResponseWriter the router writes to. gin's
@@ -674,4 +681,30 @@ type vramLag struct {
 func (l *vramLag) run() {
 	verifsim.Sleep(l.d)
 	l.g.lagged -= l.m
+}
+
+// abstractState hashes the harness-visible state of the run (which runners exist,
+// are loaded or shut down, plus a harness-supplied progress word) for the evidence
+// file's distinct_states. Harness state only: under -race the controller must not
+// read scheduler state.
+//
+//go:norace
+func (w *apiWorld) abstractState(extra uint64) uint64 {
+	h := uint64(14695981039346656037)
+	for _, s := range w.srvs {
+		v := uint64(1)
+		if s.closed > 0 {
+			v = 2
+		}
+		if s.running {
+			v |= 4
+		}
+		for i := 0; i < len(w.fams); i++ {
+			if w.fams[i].blobPath == s.model {
+				v |= uint64(i+1) << 4
+			}
+		}
+		h = (h ^ v) * 1099511628211
+	}
+	return (h ^ extra) * 1099511628211
 }
